@@ -6,6 +6,7 @@ import (
 	"fmt"
 
 	"net"
+	"os"
 	"strings"
 	"sync"
 )
@@ -27,6 +28,43 @@ func SplitURL(url string) (scheme, rest string) {
 	return url[:i], url[i+3:]
 }
 
+// NoLinger makes a later Close of a TCP connection send RST instead of FIN,
+// so that the thousands of short-lived loopback connections of a run leave
+// no TIME_WAIT sockets behind (ephemeral ports would run out otherwise).
+// CloseWrite still sends an orderly FIN.  Non-TCP connections are left alone.
+func NoLinger(c net.Conn) net.Conn {
+	var u net.Conn = c
+	if tc, ok := c.(*tls.Conn); ok {
+		u = tc.NetConn()
+	}
+	if t, ok := u.(*net.TCPConn); ok {
+		t.SetLinger(0)
+	}
+	return c
+}
+
+// NoLingerListener wraps l so that every accepted TCP connection is NoLinger.
+func NoLingerListener(l net.Listener) net.Listener { return nlListener{l} }
+
+type nlListener struct{ net.Listener }
+
+func (l nlListener) Accept() (net.Conn, error) {
+	c, err := l.Listener.Accept()
+	if err == nil {
+		NoLinger(c)
+	}
+	return c, err
+}
+
+// DialTCPNoLinger is a net dial function for plain TCP with NoLinger applied.
+func DialTCPNoLinger(network, addr string) (net.Conn, error) {
+	c, err := net.Dial(network, addr)
+	if err == nil {
+		NoLinger(c)
+	}
+	return c, err
+}
+
 // Dial connects a raw peer to a library listener at url
 // (tcp://host:port, tls+tcp://host:port, ipc:///path).  For TLS the
 // handshake is completed before Dial returns.
@@ -34,11 +72,15 @@ func Dial(url string, cli *tls.Config) (net.Conn, error) {
 	scheme, rest := SplitURL(url)
 	switch scheme {
 	case "tcp":
-		return net.Dial("tcp", rest)
+		return DialTCPNoLinger("tcp", rest)
 	case "ipc":
 		return net.Dial("unix", rest)
 	case "tls+tcp":
-		return tls.Dial("tcp", rest, cli)
+		c, err := tls.Dial("tcp", rest, cli)
+		if err != nil {
+			return nil, err
+		}
+		return NoLinger(c), nil
 	}
 	return nil, errors.New("spcodec: cannot dial " + url)
 }
@@ -59,6 +101,7 @@ func Listen(tr, unixPath string, srv *tls.Config) (*RawListener, error) {
 		if err != nil {
 			return nil, err
 		}
+		l = NoLingerListener(l)
 		if tr == "tls+tcp" {
 			l = tls.NewListener(l, srv)
 		}
@@ -164,7 +207,8 @@ func (t *Tap) serve() {
 		if err != nil {
 			return
 		}
-		s, err := net.Dial("tcp", t.target)
+		NoLinger(c)
+		s, err := DialTCPNoLinger("tcp", t.target)
 		if err != nil {
 			c.Close()
 			continue
@@ -208,4 +252,51 @@ func (t *Tap) Close() {
 		tc.server.Close()
 	}
 	t.mu.Unlock()
+}
+
+// ---- connections that are not ours ------------------------------------------------
+//
+// Loopback ports are recycled quickly on a busy machine: a reconnecting dialer
+// of some other process can hit a port that now belongs to a harness (or
+// library) listener of this run.  ForeignTCP lets a check recognise such a
+// stray connection before it blames the library for it.
+
+// ForeignTCP reports whether addr is the local end of a TCP socket that exists
+// on this host and does not belong to this process.  It answers false when it
+// cannot tell (not TCP, socket already gone).
+func ForeignTCP(addr net.Addr) bool {
+	ta, ok := addr.(*net.TCPAddr)
+	if !ok {
+		return false
+	}
+	ip := ta.IP.To4()
+	if ip == nil {
+		return false
+	}
+	want := fmt.Sprintf("%02X%02X%02X%02X:%04X", ip[3], ip[2], ip[1], ip[0], ta.Port)
+	data, err := os.ReadFile("/proc/net/tcp")
+	if err != nil {
+		return false
+	}
+	inode := ""
+	for _, ln := range strings.Split(string(data), "\n") {
+		f := strings.Fields(ln)
+		if len(f) > 9 && f[1] == want && f[3] != "0A" && f[9] != "0" { // not a listener, has an owner
+			inode = f[9]
+			break
+		}
+	}
+	if inode == "" {
+		return false
+	}
+	ents, err := os.ReadDir("/proc/self/fd")
+	if err != nil {
+		return false
+	}
+	for _, e := range ents {
+		if t, err := os.Readlink("/proc/self/fd/" + e.Name()); err == nil && t == "socket:["+inode+"]" {
+			return false
+		}
+	}
+	return true
 }
